@@ -195,9 +195,28 @@ cached in a static is such a state). **Not caught, recorded as such**: c03h - a 
 that needs eight bytes in one chunk (same family as c04f); c10h - `json_object_get_double` on a string node treats every ERANGE
 from `strtod` as overflow, so subnormal texts read as 0: which texts `strtod` flags is value-level.
 
-Across the eight rounds (160 changes): 93 were caught by the checks as they stood when the change arrived (25 of 40, then 11, 10, 12,
-9, 14, 12 of 20), 62 after a rule was added or shared, 4 are recorded as not caught, 1 was neutralised by a fix. The miss rate per round
-stayed between a third and a half until the last round (the agents are told the earlier changes and move elsewhere), which is the honest measure of how much of each
+Ninth round (20 changes): caught as submitted 13 (c01i, c02i, c03i, c05i, c08i, c12i, c13i, c14i, c15i, c17i, c18i, c19i, c20i).
+Missed, and the rule each caused: c04i (C08.R1n, also run under C04: at every call site that passes a literal NULL for a pointer
+parameter of a library function, every access through exactly that parameter in the callee is behind a non-null test - the
+"tested on one path, dereferenced on another" contradiction, armed only where a caller is known to pass NULL), c06i (C06.R8: a
+function that can be installed as a table's hash function reads no global that a function outside its own call closure writes - a
+trampoline that reads the current selection at hashing time changes the hash of live keys), c07i (C07.R8's search half is now an
+evaluation: `array_list_bsearch` on every sorted list of 0..4 elements over three keys and the keys 0..4, `bsearch` answered from
+the block it is handed - found exactly when present), c09i (C09.R9: `json_c_shallow_copy_default` evaluated on a boolean node holding
+each value that `json_object_set_boolean`, itself evaluated on 0, 1, 2, -1, leaves in a node; then `json_object_equal` evaluated on
+the node and the node the copy created), c10i (C10.R9: the (tag, value) states are *collected* by evaluating the 64-bit setters on
+boundary values and the increment on each of those states; the three integer getters are then evaluated on every collected state -
+a getter may rely on a representation invariant only if every producer keeps it, which is what makes the rule silent on a
+refactoring that establishes the invariant everywhere), c16i (C16.X9: from every configuration inside a `//` comment the step on the
+terminating NUL ends like the step from the white-space configuration the comment was entered from). **Not caught, recorded as
+such**: c11i - the set routine releases the separate buffer before copying from the source, which only matters when the source
+aliases the node's own bytes; the property quantifies over byte strings and set sequences, not over aliasing sources, and the
+unchanged routine has the same release-before-copy order on its growth path, so a rule on that order would fire on the unchanged
+tree.
+
+Across the nine rounds (180 changes): 106 were caught by the checks as they stood when the change arrived (25 of 40, then 11, 10, 12,
+9, 14, 12, 13 of 20), 68 after a rule was added or shared, 5 are recorded as not caught, 1 was neutralised by a fix. The miss rate per round
+stayed between a third and a half throughout (the agents are told the earlier changes and move elsewhere), which is the honest measure of how much of each
 property a rule set of this kind covers. Every added rule was then run against all stored refactorings.
 
 ### 7.5 Behaviour-preserving refactorings (the "never raises an alarm where the property holds" side)
@@ -222,8 +241,10 @@ The correction was the same each time and is now the working principle of the wh
 What this changed, by engine:
 
 * front end: new static helpers are inlined (`tools/known_internal.json` lists the internal functions of the reference tree; all
-  others get `alwaysinline`), the receiving functions are then jump-threaded so that a helper's `return -1` / `return 0` followed by
-  the caller's test of that code collapses back into the branch structure the rules see on the reference tree;
+  others get `alwaysinline`), the receiving functions then have their stack slots promoted again (a result the helper
+  returned through an out-parameter is a plain value once the helper is inlined) and are jump-threaded so that a helper's
+  `return -1` / `return 0` followed by the caller's test of that code collapses back into the branch structure the rules see on the
+  reference tree;
 * condition refinement (ownership, null-flow, taint, Walker) follows values through `zext`/`trunc`, single-entry phis, boolean flags
   (`int ok = (p != NULL); ... if (ok)`), and selects (forking on pointer selects);
 * the Walker knows the induction bounds of up- and down-counting loops with `<`, `<=`, `!=` exits; a slot written inside a loop is
@@ -245,7 +266,7 @@ A third suite, **B3-c04 .. B3-c19** (ten refactorings), was commissioned after t
 functions the newest rules read (the text -> integer helpers, the token -> member-name code of pointer and patch, the print buffer,
 the hash table's insert / lookup / delete / resize, the string set operation, the deep-copy routines, every function that releases
 a field or a global, the number state of the tokener, the member-name ownership of the tokener). What it found is listed with the
-false alarms of 7.2. `tools/par_regress.py` runs the whole regression - unchanged tree, the 66 refactorings x 20 checks, the 160
+false alarms of 7.2. `tools/par_regress.py` runs the whole regression - unchanged tree, the 72 refactorings x 20 checks, the 180
 seeded changes, the ~260 developer mutants - in parallel scratch worktrees with private analysis caches (about 40 minutes on 16
 cores), never touching /repo or /verif/evidence.
 
@@ -264,6 +285,16 @@ the accessor became a plain field getter (`list->length`), the path summary saw 
 `idx < obj->c_array->length`, which the rule took for "no comparison with the length" and refuted. The rule now accepts the
 accessor's result or the length field of the fetched array's backing list; the mutant that drops the range test
 (c12-drop-range-check) and the C12 seeds still fire.
+
+A seventh suite, **B7-c06, B7-c07, B7-c08, B7-c09, B7-c10, B7-c16** (six refactorings aimed at the code the ninth-round rules
+read: hash functions and their selection, the sort / search / delete routines of the list, functions with optional pointer
+parameters and their callers, the scalar copy and equality cases, the integer setters / getters / increment, the tokener's
+epilogue and comment states), found two more, both in `array_list_del_idx` split into helpers: a range end returned through an
+out-parameter stayed a stack slot after inlining (front end: slots are promoted again after inlining), and the release loop
+rewritten as an index that runs in step with a separate countdown (`while (n > 0) { ... pos++; n--; }`) made C07.R2's bound on the
+index underivable - the walk knows a loop-carried value only through its start and direction, and no branch condition mentions
+`pos`. A failed entailment about such a value is not a witness of an out-of-range index: it is now UNDECIDED, while a loop whose
+own exit test bounds the index wrongly (`i <= stop`) still has the test among the path guards and is still refuted.
 
 What remains after these corrections (and is accepted): a refactoring that removes a function a rule is anchored in by name ends
 as analysis-broken (exit 2) for that one check, never as a violation; exit 2 asks for the anchor table to be re-confirmed by a
